@@ -31,7 +31,10 @@ func (s *State) LoginEnable(pass string, cfg *program.Config) {
 		if !waitPrompt("enable", "#") {
 			// Enable password required.
 			// Use login password as enable password.
-			if !waitPrompt(pass, "#") {
+			// Must not send password, if device doesn't ask for it,
+			// because it would be echoed and logged.
+			if !strings.HasSuffix(strings.ToLower(out), "password:") ||
+				!waitPrompt(pass, "#") {
 				errlog.Abort("Authentication for enable mode failed")
 			}
 		}
